@@ -622,3 +622,232 @@ theorem readMessage_truncated (form : SumForm) (mode : OvMode) (m : Message) (wf
           rw [if_pos (by omega)]
 
 end Repe
+
+namespace Repe
+
+/-! ### coverage-audit pass: stream-reader soundness, pipelining, further emission routes -/
+
+theorem bind_eq_ok {ε α β} (x : Outcome ε α) (f : α → Outcome ε β) (b : β)
+    (h : x.bind f = .ok b) : ∃ a, x = .ok a ∧ f a = .ok b := by
+  cases x with
+  | ok a => exact ⟨a, rfl, h⟩
+  | err e => simp [Outcome.bind] at h
+  | panic => simp [Outcome.bind] at h
+  | abort => simp [Outcome.bind] at h
+
+theorem readExact_ok (s : Bytes) (n : Nat) (a r : Bytes) (h : readExact s n = .ok (a, r)) :
+    n ≤ s.length ∧ a = s.take n ∧ r = s.drop n := by
+  unfold readExact at h
+  split at h
+  · cases h
+  · simp only [Outcome.ok.injEq, Prod.mk.injEq] at h
+    exact ⟨by omega, h.1.symm, h.2.symm⟩
+
+theorem alloc_ok_any (af : AllocForm) (n : Nat) (u : Unit) (_h : alloc af n = .ok u) : True := trivial
+
+/-- Soundness of `read_message` (any allocation form): `Ok(m)` means the stream starts with the whole
+consistent frame `m.toVec`, and `m`'s parts are exactly those stream bytes. -/
+theorem readMessage_sound (af : AllocForm) (mode : OvMode) (s : Bytes) (m : Message)
+    (h : readMessage .checked af mode s = .ok m) : m.WF ∧ ∃ rest, s = m.toVec ++ rest := by
+  unfold readMessage at h
+  obtain ⟨⟨hb, s1⟩, h1, h⟩ := bind_eq_ok _ _ _ h
+  obtain ⟨hd, h2, h⟩ := bind_eq_ok _ _ _ h
+  obtain ⟨_, _, h⟩ := bind_eq_ok _ _ _ h
+  obtain ⟨⟨q, s2⟩, h3, h⟩ := bind_eq_ok _ _ _ h
+  obtain ⟨_, _, h⟩ := bind_eq_ok _ _ _ h
+  obtain ⟨⟨b, s3⟩, h4, h⟩ := bind_eq_ok _ _ _ h
+  dsimp only at h h3 h4 h2
+  obtain ⟨hl1, rfl, rfl⟩ := readExact_ok _ _ _ _ h1
+  obtain ⟨hl3, rfl, rfl⟩ := readExact_ok _ _ _ _ h3
+  obtain ⟨hl4, rfl, rfl⟩ := readExact_ok _ _ _ _ h4
+  obtain ⟨hl2, hpar, hsp, hlen, hr⟩ := decode_checked_ok mode _ hd h2
+  have hq : ((s.drop 48).take hd.queryLength).length = hd.queryLength := by
+    rw [List.length_take]; omega
+  have hbl : (((s.drop 48).drop hd.queryLength).take hd.bodyLength).length = hd.bodyLength := by
+    rw [List.length_take]; omega
+  unfold Message.new at h
+  rw [if_neg (by rw [hq, hbl]; simp)] at h
+  simp only [Outcome.ok.injEq] at h
+  subst h
+  refine ⟨⟨hr, hsp, hq.symm, hbl.symm, by dsimp only; rw [hlen, hq, hbl]⟩, ?_⟩
+  refine ⟨((s.drop 48).drop hd.queryLength).drop hd.bodyLength, ?_⟩
+  have htl : (s.take 48).length = 48 := by rw [List.length_take]; omega
+  have henc : hd.encode = s.take 48 := by
+    rw [hpar, encode_parse _ (by omega), List.take_take]; simp
+  simp only [Message.toVec]
+  rw [henc, List.append_assoc, List.append_assoc, List.take_append_drop, List.take_append_drop,
+    List.take_append_drop]
+
+/-- Soundness of `read_message_into`: on `Ok` the buffer holds exactly one whole consistent frame, which
+is the front of the stream (nothing of an earlier frame, nothing of the next). -/
+theorem readMessageInto_sound (tform : SumForm) (af : AllocForm) (mode : OvMode) (s f : Bytes)
+    (h : readMessageInto .checked tform af mode s = .ok f) :
+    ∃ m : Message, m.WF ∧ f = m.toVec ∧ ∃ rest, s = f ++ rest := by
+  unfold readMessageInto at h
+  obtain ⟨⟨hb, s1⟩, h1, h⟩ := bind_eq_ok _ _ _ h
+  obtain ⟨hd, h2, h⟩ := bind_eq_ok _ _ _ h
+  dsimp only at h h2
+  obtain ⟨hl1, rfl, rfl⟩ := readExact_ok _ _ _ _ h1
+  obtain ⟨hl2, hpar, hsp, hlen, hr⟩ := decode_checked_ok mode _ hd h2
+  have hlt : 48 + hd.queryLength + hd.bodyLength < 2^64 := by rw [← hlen]; exact hr.length
+  simp only [sum3_small tform mode 48 _ _ hlt] at h
+  obtain ⟨_, _, h⟩ := bind_eq_ok _ _ _ h
+  rw [if_neg (by omega)] at h
+  obtain ⟨⟨r, s2⟩, h3, h⟩ := bind_eq_ok _ _ _ h
+  dsimp only at h
+  obtain ⟨hl3, rfl, rfl⟩ := readExact_ok _ _ _ _ h3
+  simp only [Outcome.ok.injEq] at h
+  subst h
+  have hsub : 48 + hd.queryLength + hd.bodyLength - 48 = hd.queryLength + hd.bodyLength := by omega
+  rw [hsub] at hl3 ⊢
+  have hrl : ((s.drop 48).take (hd.queryLength + hd.bodyLength)).length = hd.queryLength + hd.bodyLength := by
+    rw [List.length_take]; omega
+  have htl : (s.take 48).length = 48 := by rw [List.length_take]; omega
+  have henc : hd.encode = s.take 48 := by
+    rw [hpar, encode_parse _ (by omega), List.take_take]; simp
+  let r := (s.drop 48).take (hd.queryLength + hd.bodyLength)
+  refine ⟨⟨hd, r.take hd.queryLength, r.drop hd.queryLength⟩, ?_, ?_, ?_⟩
+  · have hq : (r.take hd.queryLength).length = hd.queryLength := by
+      rw [List.length_take, hrl]; omega
+    have hbb : (r.drop hd.queryLength).length = hd.bodyLength := by
+      rw [List.length_drop, hrl]; omega
+    exact ⟨hr, hsp, hq.symm, hbb.symm, by dsimp only; rw [hlen, hq, hbb]⟩
+  · simp only [Message.toVec]
+    rw [henc, List.append_assoc, List.take_append_drop]
+  · exact ⟨(s.drop 48).drop (hd.queryLength + hd.bodyLength), by
+      rw [List.append_assoc, List.take_append_drop, List.take_append_drop]⟩
+
+/-- `read_message_into` on a stream that starts with a whole consistent frame of allocatable size leaves
+exactly that frame in the buffer, whatever follows on the stream. -/
+theorem readMessageInto_complete (form tform : SumForm) (mode : OvMode) (m : Message) (wf : m.WF)
+    (rest : Bytes) (hsz : 48 + m.query.length + m.body.length < 2^62) :
+    readMessageInto form tform .fallible mode (m.toVec ++ rest) = .ok m.toVec := by
+  have hr := wf.inRange
+  have hlt : 48 + m.header.queryLength + m.header.bodyLength < 2^64 := by
+    rw [wf.qlen, wf.blen]; omega
+  have hL : (m.toVec ++ rest).length = 48 + m.query.length + m.body.length + rest.length := by
+    simp [Message.toVec]; omega
+  have htake : (m.toVec ++ rest).take 48 = m.header.encode := by
+    simp only [Message.toVec, List.append_assoc]; exact List.take_left' (encode_length _)
+  have hdrop : (m.toVec ++ rest).drop 48 = m.query ++ (m.body ++ rest) := by
+    simp only [Message.toVec, List.append_assoc]; exact List.drop_left' (encode_length _)
+  have hd : Header.decode form mode m.header.encode = .ok m.header := by
+    simpa using decode_encode_append form mode m.header hr wf.spec wf.hdr []
+  unfold readMessageInto
+  simp only [readExact, Outcome.bind]
+  rw [if_neg (by omega), htake, hdrop]
+  have hlt' : 48 + m.query.length + m.body.length < 2^64 := by omega
+  simp only [hd, wf.qlen, wf.blen, sum3_small tform mode 48 _ _ hlt', alloc_fallible]
+  rw [if_neg (by omega), if_neg (by omega)]
+  have hsub : 48 + m.query.length + m.body.length - 48 = m.query.length + m.body.length := by omega
+  simp only [hsub, List.length_append]
+  rw [if_neg (by omega)]
+  have : m.query ++ (m.body ++ rest) = (m.query ++ m.body) ++ rest := by simp
+  rw [this, List.take_left' (by simp)]
+  simp [Message.toVec]
+
+/-- A stream cut anywhere inside a frame makes `read_message_into` return an I/O error. -/
+theorem readMessageInto_truncated (form tform : SumForm) (mode : OvMode) (m : Message) (wf : m.WF)
+    (n : Nat) (hn : n < m.toVec.length) :
+    readMessageInto form tform .fallible mode (m.toVec.take n) = .err .io := by
+  have hr := wf.inRange
+  have hL := toVec_length m
+  have hlt : 48 + m.header.queryLength + m.header.bodyLength < 2^64 := by
+    rw [← wf.hdr]; exact hr.length
+  by_cases h48 : n < 48
+  · unfold readMessageInto
+    simp only [readExact, Outcome.bind]
+    rw [if_pos (by simp [List.length_take]; omega)]
+  · have hlen : (m.toVec.take n).length = n := by simp [List.length_take]; omega
+    have htake : (m.toVec.take n).take 48 = m.header.encode := by
+      rw [List.take_take, Nat.min_eq_left (by omega)]
+      simp only [Message.toVec, List.append_assoc]; exact List.take_left' (encode_length _)
+    have hd : Header.decode form mode m.header.encode = .ok m.header := by
+      simpa using decode_encode_append form mode m.header hr wf.spec wf.hdr []
+    have hdl : ((m.toVec.take n).drop 48).length = n - 48 := by simp [List.length_drop, hlen]
+    unfold readMessageInto
+    simp only [readExact, Outcome.bind]
+    rw [if_neg (by omega), htake]
+    have hlt' : 48 + m.query.length + m.body.length < 2^64 := by rw [← wf.qlen, ← wf.blen]; exact hlt
+    simp only [hd, wf.qlen, wf.blen, sum3_small tform mode 48 _ _ hlt', alloc_fallible]
+    by_cases h62 : 48 + m.query.length + m.body.length ≥ 2^62
+    · simp [h62]
+    · rw [if_neg h62, if_neg (by omega)]
+      simp only [hdl]
+      rw [if_pos (by omega)]
+
+/-- Pipelining with one reader and one reused buffer: `n` whole consistent frames back to back are read
+as exactly those frames, in order, and the stream is left at the first byte after them. -/
+theorem readSeq_frames (reader : Bytes → WOut Bytes) (ms : List Message) (tail : Bytes)
+    (hreader : ∀ m ∈ ms, ∀ rest, reader (m.toVec ++ rest) = .ok m.toVec) :
+    readSeq reader ms.length ((ms.map Message.toVec).flatten ++ tail) = (ms.map Message.toVec, tail) := by
+  induction ms with
+  | nil => simp [readSeq]
+  | cons m ms ih =>
+    have h1 := hreader m (by simp) ((ms.map Message.toVec).flatten ++ tail)
+    have ih' := ih (fun m' hm' rest => hreader m' (by simp [hm']) rest)
+    simp only [List.map_cons, List.flatten_cons, List.length_cons, List.append_assoc, readSeq, h1,
+      List.drop_left' rfl, ih']
+
+/-! emission: the async server's `write_view_response`, `serialized_len`, the response constructors -/
+
+theorem writeViewResponse_of_wf (resp : Message) (wf : resp.WF) (query : Bytes) :
+    writeViewResponse resp query = writeMessageStreaming resp.header query resp.body := by
+  have hbl := wf.blen
+  unfold writeViewResponse writeMessageStreaming Header.patchLengths
+  cases hb : resp.body <;> simp [hbl, hb]
+
+/-- Async TCP server and blocking TCP server frame the same response identically. -/
+theorem asyncServerFrame_eq_serverFrame (resp : Message) (wf : resp.WF) (reqQuery : Bytes) :
+    asyncServerFrame resp reqQuery = serverFrame resp reqQuery := by
+  unfold asyncServerFrame serverFrame
+  exact writeViewResponse_of_wf resp wf _
+
+theorem serializedLen_eq (m : Message) : m.serializedLen = m.toVec.length := by
+  rw [toVec_length]; rfl
+
+theorem stamp_unstamped_error (reqId : Nat) (reqQuery : Bytes) (code : Nat) (msg : Bytes) :
+    stampResponseQuery (createErrorResponseUnstamped reqId code msg) reqQuery =
+      createErrorResponseLike reqId reqQuery code msg := by
+  unfold stampResponseQuery createErrorResponseUnstamped createErrorResponseLike wireErrorMessage
+    Builder.build Header.patchLengths
+  cases reqQuery with
+  | nil => simp
+  | cons a t => simp
+
+theorem stamp_unstamped_response (reqId reqQf : Nat) (reqQuery : Bytes) (bf : Nat) (body : Bytes) :
+    stampResponseQuery (createResponseUnstamped reqId reqQf bf body) reqQuery =
+      createResponse reqId reqQf reqQuery bf body := by
+  unfold stampResponseQuery createResponseUnstamped createResponse Builder.build Header.patchLengths
+  cases reqQuery with
+  | nil => simp
+  | cons a t => simp
+
+theorem createErrorResponseLike_wf (reqId : Nat) (reqQuery : Bytes) (code : Nat) (msg : Bytes)
+    (hid : reqId < 2^64) (hc : code < 2^32) (hlen : 48 + reqQuery.length + msg.length < 2^64) :
+    (createErrorResponseLike reqId reqQuery code msg).WF := by
+  refine ⟨⟨?_, ?_, ?_, ?_, ?_, ?_, ?_, ?_, ?_, ?_, ?_⟩, rfl, rfl, rfl, rfl⟩ <;>
+    simp [createErrorResponseLike, wireErrorMessage, Builder.build, REPE_SPEC, REPE_VERSION, UTF8_FORMAT] <;>
+    omega
+
+/-- A route whose writes are header, query, body (guarded or not) emits `to_vec`. -/
+theorem emitParts_ok (ps : List Part) (h : partsOk ps = true) (m : Message) :
+    emitParts ps m = m.toVec := by
+  match ps, h with
+  | [.header, .query gq, .body gb], _ =>
+    unfold emitParts Message.toVec
+    cases gq <;> cases gb <;> cases hq : m.query <;> cases hb : m.body <;> simp [Part.emit, hq, hb]
+
+/-- header then query (guarded or not): the prefix `write_message_streaming` writes before the body callback. -/
+def prefixPartsOk : List Part → Bool
+  | [.header, .query _] => true
+  | _ => false
+
+theorem emitParts_prefix_ok (ps : List Part) (h : prefixPartsOk ps = true) (m : Message) :
+    emitParts ps m ++ m.body = m.toVec := by
+  match ps, h with
+  | [.header, .query gq], _ =>
+    unfold emitParts Message.toVec
+    cases gq <;> cases hq : m.query <;> simp [Part.emit, hq]
+
+end Repe
